@@ -117,7 +117,7 @@ def run(ctx):
     cases = to_cases(pairs, ctx.rng) + gen_literal_cases(ctx)
     ctx.rule += '; patterns written as string literals in the query text (tokens incl. $$ $& $` $\' $1 {0} and the other quote) x texts derived from them'
     for fl, name in ((0, 'py'), (1, 'js')):
-        cs = cases if fl == 0 else [c for c in cases if bmp_only(c)]   # JS strings are UTF-16: stay in the BMP there
+        cs = cases      # astral characters on both ports: `_` is one CHARACTER (rbql-js compiles its patterns with the u flag since D19)
         args = [lib.enc([fl, [[t, p] for t, p in c['rows']]]) for c in cs]
         model = lib.run_model(17, args)
         exp = [[bool(b) for b in m] for m in model]
